@@ -398,12 +398,13 @@ def extract_function(fn):
     if fn.get("scope", True):
         body = apply_scope_rule(body, log)
     for mname in fn.get("methods", []):
-        def _m(mo, body_ref=[None]):
-            return mo.group(0)
+        optional = False
+        if isinstance(mname, tuple):
+            mname, optional = mname[0], True
         body = re.sub(r"\bself->%s\(" % re.escape(mname), mname + "(", body)   # this->f(...) form
         pat = re.compile(r"(?<![\w.>:])%s\(\s*(\)?)" % re.escape(mname))
         body, k = pat.subn(lambda mo: "%s(self%s" % (mname, ")" if mo.group(1) else ", "), body)
-        if k == 0:
+        if k == 0 and not optional:
             raise ExtractionBroken("%s: member call %s( not found" % (fn["name"], mname))
         log.append("member-function call %s(...) -> %s(self, ...) x%d" % (mname, mname, k))
     for rname in fn.get("refs", []):
